@@ -28,7 +28,7 @@ func init() {
 		Run: ruleLpmImaginary,
 	})
 	register(&Rule{
-		ID: "QUEUE-INDEX-PAIR", Props: []string{"C14", "C16"}, Floor: 4,
+		ID: "QUEUE-INDEX-PAIR", Props: []string{"C14", "C16"}, Floor: 3,
 		Doc: "the retry queue ordered by time is positioned with retryItem.index and the queue ordered by revision with retryItem.revIndex, at every Fix/Remove (directly or through a helper)",
 		Run: ruleQueueIndexPair,
 	})
@@ -241,8 +241,8 @@ func ruleQueueIndexPair(c *Ctx, r *Reporter) {
 			r.check(good, key, c.posStr(instrPos(call)), "queue and item index belong together", "a retry item's position in one heap is used to address the other heap ("+strings.Join(queues, ",")+" with "+strings.Join(indexes, ",")+"): the wrong entry is fixed/removed and a stale retry survives or a live one is lost")
 		}
 	}
-	if n < 4 {
-		r.undecided("calls", "-", fmt.Sprintf("expected at least 4 queue operations addressed by an item index, found %d", n))
+	if n < 3 {
+		r.undecided("calls", "-", fmt.Sprintf("expected at least 3 queue operations addressed by an item index, found %d", n))
 	}
 }
 
